@@ -38,7 +38,7 @@ FaultSeqs(w) ==
         ELSE UNION {{<<f, g>> : g \in {h \in Faults1(Len(ApplyFault(w, f))) : Applicable(ApplyFault(w, f), h)}} :
                       f \in {g \in Faults1(Len(w)) : Applicable(w, g)}})
 
-ModClasses == <<"type", "vers", "len-up", "len-down", "first", "mid", "last", "dropbyte", "addbyte">>
+ModClasses == <<"type", "vers", "len-up", "len-down", "first", "mid", "last", "dropbyte", "addbyte", "cut-header", "cut-body">>
 SegClasses == <<"whole", "bytes", "records", "halves", "odd">>
 ReadSizes == <<1, 100, 16384, 70000, 5>>
 Plans == <<"singles", "big", "split">>
@@ -61,9 +61,9 @@ SchedCase(c, K, fs, plan) ==
 SchedCases ==
   LET ps == SchedParams IN
   IF AllPlans
-  THEN FlatSeq([c \in 1..Len(ps) |->
-         SelectSeq([k \in 1..3 |-> [ok |-> PlanOK(Plans[k], ps[c][1]), v |-> SchedCase(c, ps[c][1], ps[c][2], Plans[k])]],
-                   LAMBDA x : x.ok)])
+  THEN LET jobs == SetToSeq({<<c, Plans[k]>> : c \in 1..Len(ps), k \in 1..3} \cap
+                             {x \in (1..Len(ps)) \X {"singles", "big", "split"} : PlanOK(x[2], ps[x[1]][1])})
+       IN [i \in 1..Len(jobs) |-> [ok |-> TRUE, v |-> SchedCase(jobs[i][1], ps[jobs[i][1]][1], ps[jobs[i][1]][2], jobs[i][2])]]
   ELSE [c \in 1..Len(ps) |->
          LET pl == Plans[(c % 3) + 1] IN
          [ok |-> TRUE, v |-> SchedCase(c, ps[c][1], ps[c][2], IF PlanOK(pl, ps[c][1]) THEN pl ELSE "singles")]]
